@@ -203,6 +203,7 @@ type loopInfo struct {
 	modAll  bool
 	inv     []*Clause
 	dec     *Clause
+	exit    []*Clause // asserted whenever control leaves the loop (normal exit, break, or any other edge out of the body)
 }
 
 func (fe *FE) errorf(format string, a ...interface{}) {
